@@ -1238,7 +1238,32 @@ func (g *vfGen) lockedMove() {
 		}
 		return -1
 	}
-	switch r.Intn(6) {
+	switch r.Intn(7) {
+	case 6: // relock walk: two or more rounds past the lock round, a polka for the locked block in a
+		// round whose proposal the node does not hold (it relocks after the prevote wait), then the
+		// delayed polka for something else of a round strictly between the two, then a new round
+		// with another proposal: the lock of the later round must hold
+		for i := 0; i < 3 && cs.LockedBlock != nil && cs.Round < cs.LockedRound+2 && !n.halted; i++ {
+			g.mvQuorum(kproto.PrecommitType, cs.Round, -1, true)
+			g.mvTimeout()
+		}
+		if cs.LockedBlock == nil || cs.Round < cs.LockedRound+2 || n.halted {
+			break
+		}
+		lr, h := cs.LockedRound, cs.Height
+		g.mvQuorum(kproto.PrevoteType, cs.Round, lockedID, true)
+		g.mvTimeout()
+		if cs.Height != h || cs.Round < lr+2 {
+			break
+		}
+		rr := lr + 1 + uint32(r.Intn(int(cs.Round-lr-1)))
+		g.mvQuorum(kproto.PrevoteType, rr, other(), true)
+		g.mvQuorum(kproto.PrecommitType, cs.Round, -1, true)
+		g.mvTimeout()
+		if cs.Height == h {
+			g.mvProposal("", true)
+		}
+		g.n.o.Stat("mv:relock-walk")
 	case 0: // leave the round: nil precommits, then the timeout
 		g.mvQuorum(kproto.PrecommitType, cs.Round, -1, true)
 		g.mvTimeout()
